@@ -7,9 +7,11 @@ mirrors of Api/GuardedV2.lean); removed crates are gone.
 import Proofs.Chain
 import EngineModel.Api.GuardedV2
 import EngineModel.Db.V2Wf
+import Proofs.C15GuardValues
+import Proofs.V2ForestRun
 
 namespace EngineModel.Api.GuardedV2
-open EngineModel EngineModel.Db.Chain EngineModel.Db.V2 EngineModel.ListAux EngineModel.Gen
+open EngineModel EngineModel.Db.Chain EngineModel.Db.V2 EngineModel.ListAux EngineModel.Gen EngineModel.Spec
 
 set_option linter.unusedSimpArgs false
 
@@ -60,7 +62,9 @@ theorem peAddBack_defined (d : Db) (l t u : Int) (f : Bool) : Defined (peAddBack
   unfold peAddBack
   (repeat' split) <;> first | exact Defined.ok _ | exact Defined.throw _
 
-theorem step_defined (d : Db) (op : Op) : Defined (step d op).2 := by
+/-- On a state whose Playlist table is a well-formed forest (the crates-2.x invariant; their theorem
+`descendantIds_ok`: the recursive view terminates there) no operation ends in `ub`. -/
+theorem step_defined (d : Db) (hW : Forest.Forest.Wf (absF d)) (op : Op) : Defined (step d op).2 := by
   cases op with
   | createRoot name =>
     simp only [step]; split
@@ -110,13 +114,18 @@ theorem step_defined (d : Db) (op : Op) : Defined (step d op).2 := by
         | some q =>
           simp only; split
           · exact Defined.throw _
-          · split
+          · obtain ⟨l, hl, _⟩ := descendantIds_ok hW c
+            rw [hl]
+            simp only
+            split
             · exact Defined.throw _
             · split <;> exact plUpdate_defined _ _ _ _ _
   | removeCrate c =>
     simp only [step]; split
     · exact Defined.throw _
-    · exact Defined.ok _
+    · obtain ⟨l, hl, _⟩ := descendantIds_ok hW c
+      rw [hl]
+      exact Defined.ok _
   | createTrack => exact Defined.ok _
   | removeTrack t =>
     simp only [step]; split
@@ -144,15 +153,15 @@ def outcomes (d : Db) : List Op → List (Res Out)
   | [] => []
   | op :: t => (step d op).2 :: outcomes (step d op).1 t
 
-theorem outcomes_defined (l : List Op) : ∀ d, ∀ r ∈ outcomes d l, Defined r := by
+theorem outcomes_defined (l : List Op) : ∀ d, PlInv d → ∀ r ∈ outcomes d l, Defined r := by
   induction l with
-  | nil => intro d r hr; cases hr
+  | nil => intro d _ r hr; cases hr
   | cons op t ih =>
-    intro d r hr
+    intro d hI r hr
     simp only [outcomes, List.mem_cons] at hr
     rcases hr with e | e
-    · rw [e]; exact step_defined d op
-    · exact ih _ r e
+    · rw [e]; exact step_defined d hI.wf op
+    · exact ih _ (plInv_step hI op) r e
 
 /-! ### the backwards walk ends within `rows.length` lookups -/
 
@@ -248,67 +257,17 @@ theorem walkBackG_defined {A : Int → List Int} {t : Table α} (h : R A t) (k :
   obtain ⟨e, l, hl⟩ := walkBackG_eq h k
   rw [e, hl]; exact Defined.ok _
 
-/-! ### the recursive view terminates on a forest -/
-
-theorem isAncFuelG_eq (t : Table Bytes) (a : Int) : ∀ (n : Nat) (x : Int), reachesRoot t n x = true →
-    isAncFuelG t a n x = .ok (isAncFuel t a n x) := by
-  intro n
-  induction n with
-  | zero => intro x h; simp [reachesRoot] at h
-  | succ n ih =>
-    intro x h
-    unfold reachesRoot at h
-    unfold isAncFuelG isAncFuel
-    cases hg : get t x with
-    | none => rfl
-    | some r =>
-      rw [hg] at h
-      simp only at h ⊢
-      by_cases h0 : (r.key == 0) = true
-      · simp only [h0, if_true]
-      · simp only [h0, Bool.false_eq_true, if_false, Bool.false_or] at h ⊢
-        by_cases ha : (r.key == a) = true
-        · simp only [ha, if_true, Bool.true_or]
-        · simp only [ha, Bool.false_eq_true, if_false, Bool.false_or]
-          exact ih r.key h
-
-theorem filterG_eq (p : Row Bytes → Res Bool) (q : Row Bytes → Bool) :
-    ∀ (l : List (Row Bytes)), (∀ r ∈ l, p r = .ok (q r)) → filterG p l = .ok (l.filter q) := by
-  intro l
-  induction l with
-  | nil => intro _; rfl
-  | cons r t ih =>
-    intro h
-    have hr := h r (List.mem_cons_self ..)
-    have ht := ih (fun x hx => h x (List.mem_cons_of_mem _ hx))
-    unfold filterG
-    rw [hr, ht]
-    simp only [List.filter_cons]
-
-/-- On a table whose parent links form a forest (`forestOk`, Db/V2Wf.lean) the guarded recursive
-view yields exactly the model's `descendantIds`: it never runs out of the `|Playlist|` steps. -/
-theorem descendantIdsG_eq (t : Table Bytes) (hf : forestOk t = true) (c : Int) :
-    descendantIdsG t c = .ok (descendantIds t c) := by
-  unfold descendantIdsG descendantIds
-  have hall : ∀ r ∈ t, isAncG t c r.id = .ok (isAnc t c r.id) := by
-    intro r hr
-    unfold isAncG isAnc
-    apply isAncFuelG_eq
-    unfold forestOk at hf
-    exact (List.all_eq_true.mp hf) r hr
-  rw [filterG_eq _ (fun r => isAnc t c r.id) t hall]
-
 /-! ### the guarded walks with the source's own emptiness test -/
 
 theorem sortIdsG_eq (t : Table Bytes) (k : Int) : sortIdsG t k = walkBackG t k := by
-  unfold sortIdsG walkBackG C15Guards.v2_pl_sort_ids_empty
-  simp only
+  unfold sortIdsG walkBackG
+  simp only [C15Guards.v2_pl_sort_ids_empty_eq]
   split
   · rfl
   · cases lookupNext (rowsOf t k) 0 <;> rfl
 theorem getForListG_eq (t : Table Ent) (k : Int) : getForListG t k = walkBackG t k := by
-  unfold getForListG walkBackG C15Guards.v2_pe_get_for_list_empty
-  simp only
+  unfold getForListG walkBackG
+  simp only [C15Guards.v2_pe_get_for_list_empty_eq]
   split
   · rfl
   · cases lookupNext (rowsOf t k) 0 <;> rfl
@@ -317,10 +276,9 @@ theorem getForListG_eq (t : Table Ent) (k : Int) : getForListG t k = walkBackG t
 
 theorem withDeref_some {β : Type} (d : Db) (a : β) (k : β → Db × Res Out) : withDeref d (some a) k = k a := rfl
 
-theorem plRemoveWith_eq (d : Db) (c : Int) : plRemoveWith d c (descendantIds d.pl c) = plRemove d c := rfl
-
 theorem peAddBackG_eq (d : Db) (l t u : Int) (f : Bool) : peAddBackG Guards.source d l t u f = peAddBack d l t u f := by
-  unfold peAddBackG peAddBack Guards.source C15Guards.v2_pe_add_back_existing
+  unfold peAddBackG peAddBack Guards.source
+  simp only [C15Guards.v2_pe_add_back_existing_eq]
   cases peFind d l t u with
   | none => rfl
   | some e => cases f <;> rfl
@@ -333,33 +291,29 @@ theorem rmTrackInG_foldl (t : Int) (L : List Int) : ∀ pe : Table Ent,
     intro pe
     simp only [List.foldl_cons]
     have h1 : rmTrackInG Guards.source t (.ok pe) l = .ok (rmTrackIn t pe l) := by
-      unfold rmTrackInG rmTrackIn Guards.source C15Guards.v2_db_remove_track_found
-      simp only [Res.bind]
+      unfold rmTrackInG rmTrackIn Guards.source
+      simp only [Res.bind, C15Guards.v2_db_remove_track_found_eq]
       cases (pe.filter (fun r => r.key == l && r.val.track == t && r.val.uuid == 0)).getLast? <;> rfl
     rw [h1]; exact ih _
 
 theorem setParentCheckG_none (d : Db) (c : Int) : setParentCheckG Guards.source d c none = .ok none := rfl
 
-theorem setParentCheckG_some (d : Db) (hf : forestOk d.pl = true) (c q : Int) :
+theorem setParentCheckG_some (d : Db) (c q : Int) :
     setParentCheckG Guards.source d c (some q) =
-      .ok (if !plExists d q then some (exn "crate_deleted")
-           else if (descendantIds d.pl c).contains q then some (exn "crate_invalid_parent") else none) := by
-  unfold setParentCheckG Guards.source C15Guards.v2_crate_set_parent_given
-  simp only [Option.isSome_some, if_true, deref, Res.bind]
-  by_cases he : plExists d q = true
-  · simp only [he, Bool.not_true, Bool.false_eq_true, if_false, descendantIdsG_eq d.pl hf c, Res.bind]
-    split <;> rfl
-  · have he' : plExists d q = false := by simpa using he
-    simp only [he', Bool.not_false, if_true]
+      if !plExists d q then .ok (some (exn "crate_deleted"))
+      else (descendantIds d.pl c).bind fun ds =>
+        if ds.contains q then .ok (some (exn "crate_invalid_parent")) else .ok none := by
+  unfold setParentCheckG Guards.source
+  simp only [C15Guards.v2_crate_set_parent_given_eq, Option.isSome_some, if_true, deref, Res.bind]
 
-/-- **The guarded step = the model's step** on a state whose parent links form a forest: no
-dereference meets an empty optional (the C++ guards, as regenerated from the source, suffice) and the
-recursive view is evaluated within its `|Playlist|` steps. -/
-theorem stepG_eq (d : Db) (hf : forestOk d.pl = true) (op : Op) : stepG d op = step d op := by
+/-- **The guarded step = the model's step**, on ANY state: no dereference meets an empty optional — the
+C++ guards, as regenerated from the source, suffice.  (The recursive view is the package's own
+`descendantIds`, `ub nontermination` on a cyclic table, in both.) -/
+theorem stepG_eq (d : Db) (op : Op) : stepG d op = step d op := by
   cases op with
   | createRoot name => rfl
   | createRootAfter name after =>
-    simp only [stepG, stepGW, step, Guards.source, C15Guards.v2_db_root_after_norow]
+    simp only [stepG, stepGW, step, Guards.source, C15Guards.v2_db_root_after_norow_eq]
     split
     · rfl
     · cases get d.pl after with
@@ -368,7 +322,7 @@ theorem stepG_eq (d : Db) (hf : forestOk d.pl = true) (op : Op) : stepG d op = s
         simp only [Option.isSome_some, Bool.not_true, Bool.false_eq_true, if_false, withDeref_some]
   | createSub p name => rfl
   | createSubAfter p name after =>
-    simp only [stepG, stepGW, step, Guards.source, C15Guards.v2_crate_sub_after_norow]
+    simp only [stepG, stepGW, step, Guards.source, C15Guards.v2_crate_sub_after_norow_eq]
     split
     · rfl
     · split
@@ -378,7 +332,7 @@ theorem stepG_eq (d : Db) (hf : forestOk d.pl = true) (op : Op) : stepG d op = s
         | some a =>
           simp only [Option.isSome_some, Bool.not_true, Bool.false_eq_true, if_false, withDeref_some]
   | rename c name =>
-    simp only [stepG, stepGW, step, Guards.source, C15Guards.v2_crate_set_name_norow]
+    simp only [stepG, stepGW, step, Guards.source, C15Guards.v2_crate_set_name_norow_eq]
     cases get d.pl c with
     | none => rfl
     | some r => rfl
@@ -386,17 +340,17 @@ theorem stepG_eq (d : Db) (hf : forestOk d.pl = true) (op : Op) : stepG d op = s
     cases p with
     | none =>
       simp only [stepG, stepGW, step, setParentCheckG_none]
-      simp only [Guards.source, C15Guards.v2_crate_set_parent_self, C15Guards.v2_crate_set_parent_norow,
-        C15Guards.v2_crate_set_parent_given2, Option.isSome_none, Bool.false_eq_true, if_false, Bool.false_and]
+      simp only [Guards.source, C15Guards.v2_crate_set_parent_self_eq, C15Guards.v2_crate_set_parent_norow_eq,
+        C15Guards.v2_crate_set_parent_given2_eq, Option.isSome_none, Bool.false_eq_true, if_false, Bool.false_and]
       have : (none == some c) = false := rfl
       simp only [this, Bool.false_eq_true, if_false]
       cases get d.pl c with
       | none => rfl
       | some r => rfl
     | some q =>
-      simp only [stepG, stepGW, step, setParentCheckG_some d hf c q]
-      simp only [Guards.source, C15Guards.v2_crate_set_parent_self, C15Guards.v2_crate_set_parent_norow,
-        C15Guards.v2_crate_set_parent_given2, Option.isSome_some, if_true, Bool.true_and, deref, Res.bind]
+      simp only [stepG, stepGW, step, setParentCheckG_some d c q]
+      simp only [Guards.source, C15Guards.v2_crate_set_parent_self_eq, C15Guards.v2_crate_set_parent_norow_eq,
+        C15Guards.v2_crate_set_parent_given2_eq, Option.isSome_some, if_true, Bool.true_and, deref, Res.bind]
       by_cases hqc : q = c
       · subst hqc; simp
       · have h1 : (q == c) = false := by simpa using hqc
@@ -408,27 +362,35 @@ theorem stepG_eq (d : Db) (hf : forestOk d.pl = true) (op : Op) : stepG d op = s
           simp only [Option.isSome_some, Bool.not_true, Bool.false_eq_true, if_false]
           by_cases he : plExists d q = true
           · simp only [he, Bool.not_true, Bool.false_eq_true, if_false]
-            by_cases hc : (descendantIds d.pl c).contains q = true
-            · simp only [hc, if_true]
-            · have hc' : (descendantIds d.pl c).contains q = false := by simpa using hc
-              simp only [hc', Bool.false_eq_true, if_false, withDeref_some]
+            cases hds : descendantIds d.pl c with
+            | ub u => rfl
+            | throw e => rfl
+            | ok ds =>
+              simp only [Res.bind]
+              by_cases hc : ds.contains q = true
+              · simp only [hc, if_true]
+              · have hc' : ds.contains q = false := by simpa using hc
+                simp only [hc', Bool.false_eq_true, if_false, withDeref_some]
           · have he' : plExists d q = false := by simpa using he
             simp only [he', Bool.not_false, if_true]
   | removeCrate c =>
-    simp only [stepG, stepGW, step, descendantIdsG_eq d.pl hf c, plRemoveWith_eq]
+    simp only [stepG, stepGW, step]
+    split
+    · rfl
+    · cases descendantIds d.pl c <;> rfl
   | createTrack => rfl
   | removeTrack t => simp only [stepG, stepGW, step, rmTrackInG_foldl]
   | addTrack c t => simp only [stepG, stepGW, step, peAddBackG_eq]
   | removeTrackFrom c t =>
-    simp only [stepG, stepGW, step, Guards.source, C15Guards.v2_crate_remove_track_found]
+    simp only [stepG, stepGW, step, Guards.source, C15Guards.v2_crate_remove_track_found_eq]
     cases peFind d c t 0 <;> rfl
   | clearTracks c => rfl
   | peAddBack l t uu f => simp only [stepG, stepGW, step, peAddBackG_eq]
   | peRemove l e => rfl
   | peClear l => rfl
 
-theorem stepG_defined (d : Db) (hf : forestOk d.pl = true) (op : Op) : Defined (stepG d op).2 := by
-  rw [stepG_eq d hf op]; exact step_defined d op
+theorem stepG_defined (d : Db) (hW : Forest.Forest.Wf (absF d)) (op : Op) : Defined (stepG d op).2 := by
+  rw [stepG_eq d op]; exact step_defined d hW op
 
 /-! ### queries -/
 
@@ -439,29 +401,35 @@ theorem bind_unit_defined {β} (r : Res β) (hr : Defined r) : Defined (r.bind f
   | ub u => exact absurd h (hr u)
 
 theorem qNameG_eq (d : Db) (c : Int) : qNameG d c = qName d c := by
-  unfold qNameG qName C15Guards.v2_crate_name_norow
+  unfold qNameG qName
+  simp only [C15Guards.v2_crate_name_norow_eq]
   cases get d.pl c <;> rfl
 
 theorem qParentG_eq (d : Db) (c : Int) : qParentG d c = qParent d c := by
-  unfold qParentG qParent C15Guards.v2_crate_parent_norow
+  unfold qParentG qParent
+  simp only [C15Guards.v2_crate_parent_norow_eq]
   cases get d.pl c with
   | none => rfl
   | some r =>
     simp only [Option.isSome_some, Bool.not_true, Bool.false_eq_true, if_false, deref, Res.bind]
 
 theorem qByParentNameG_eq (d : Db) (p : Int) (n : Bytes) : qByParentNameG d p n = .ok (qByParentName d p n) := by
-  unfold qByParentNameG qByParentName C15Guards.v2_db_root_by_name_none C15Guards.v2_crate_sub_by_name_none
+  unfold qByParentNameG qByParentName
+  simp only [C15Guards.v2_db_root_by_name_none_eq, C15Guards.v2_crate_sub_by_name_none_eq]
   cases findId d p n with
   | none => simp
   | some i => simp [deref, Res.bind]
 
 theorem queryG_defined (d : Db) {A B : Int → List Int} (hpl : R A d.pl) (hpe : R B d.pe)
-    (hf : forestOk d.pl = true) (q : Query) : Defined (queryG d q) := by
+    (hW : Forest.Forest.Wf (absF d)) (q : Query) : Defined (queryG d q) := by
   cases q with
   | crates => exact Defined.ok _
   | roots => exact bind_unit_defined _ (sortIdsG_eq d.pl 0 ▸ walkBackG_defined hpl 0)
   | children c => exact bind_unit_defined _ (sortIdsG_eq d.pl c ▸ walkBackG_defined hpl c)
-  | descendants c => simp only [queryG]; rw [descendantIdsG_eq d.pl hf c]; exact Defined.ok _
+  | descendants c =>
+    simp only [queryG]
+    obtain ⟨l, hl, _⟩ := descendantIds_ok hW c
+    rw [hl]; exact Defined.ok _
   | parent c =>
     apply bind_unit_defined
     rw [qParentG_eq]
@@ -541,7 +509,7 @@ theorem plExists_iff (d : Db) (i : Int) : plExists d i = true ↔ i ∈ ids d.pl
     have : r ∈ d.pl.filter (·.id == i) := List.mem_filter.mpr ⟨hr, by simpa using hid⟩
     rw [he] at this; cases this
 
-theorem removed_gone (d : Db) (c : Int) : c ∉ ids (plRemove d c).pl := by
+theorem removed_gone (d : Db) (c : Int) (ds : List Int) : c ∉ ids (plRemove d (c :: ds)).pl := by
   unfold plRemove
   intro h
   exact (ids_foldl_deleteCascade _ _ c h).2 (by simp)
